@@ -599,6 +599,17 @@ theorem parCore_total (w : World) (i : Nat) (im : Impl) (threads : List (List Pa
     rw [hout]
     exact ⟨_, rfl⟩
 
+/-- **sent, then something raised**: whatever happens after the request was handed to the opener (an
+answer that is processed, an exception of the opener, an answer whose processing raises), the world
+and the headers that went out are the same — the number the request took stays taken.  (Tied to the
+source by `no_other_writer`: nothing reachable from a request gives a number back.) -/
+theorem outcome_keeps_number (w : World) (c : Nat) (src : HdrSrc) (d : Bool) (o : Outcome) :
+    (w.requestOutcome Gen.C16.cfg c src d o).map (fun r => (r.1, r.2.1)) = w.request Gen.C16.cfg c src d := by
+  unfold World.requestOutcome
+  cases w.request Gen.C16.cfg c src d with
+  | ok r => rfl
+  | error e => rfl
+
 /-- a successful sequential request either leaves the world as it is (ids disabled, or an id was
 present after the adapters) or moves the counter of its implementation object from `n` to `n + 1` and
 sends the rendering of `n` -/
@@ -635,7 +646,7 @@ theorem request_cases (w w' : World) (c : Nat) (cn : Conn) (im : Impl) (src : Hd
 
 /-- **history level**: whatever the caller does, in whatever order — new connections, derived
 connections of any class, caller dicts, sequential requests (with or without their own id, with or
-without a body), batches of concurrent requests under any schedule — every generated id that was sent
+without a body, answered or failing in the opener or while the answer is processed), batches of concurrent requests under any schedule — every generated id that was sent
 is the rendering of a number below the present counter of its implementation object, and **no
 implementation object ever sent the same generated id twice** (the log pairs every id with the
 implementation object it was generated by; derived connections log under their parent's object). -/
@@ -658,10 +669,11 @@ theorem history_ids_distinct (ops : List Op) (w : World) (log : IdLog)
           obtain ⟨_, _, _, _, _, _, himp, _⟩ := derived_shares w w' c c' cls ad hw
           rw [himp]; exact H
         · exact H
-      | req c src d =>
+      | req c src d o =>
         simp only [histStep]
         split
-        · rename_i cn w' hs' hc hreq
+        · rename_i cn w' hs' _ hc hreq0
+          have hreq := (requestOutcome_ok hreq0).1
           cases hi : w.impls[cn.impl]? with
           | none =>
             unfold World.request at hreq
